@@ -6,6 +6,7 @@
 **                 and ALL merges of two 6-step scripts), after the process has already run many other scripts.
 ** Oracle: the two transcripts are equal, step by step.  The clock is pinned (PEAK timestamps), TMPDIR is private.
 */
+#include <stddef.h>
 #include "vh.h"
 #include <sys/time.h>
 #include <sys/wait.h>
@@ -40,6 +41,38 @@ static void inst_init (INST *in, const SPEC *sp, int slot)
 	/* the file NAME is the same for the solo and the interleaved run (SVX/MPC2K record it); only the directory differs */
 	if (sp->kind == K_SD2 || sp->kind == K_PATHWRITE) { char d [330] ; snprintf (d, sizeof (d), "%s/s%d_%d", scratch, (int) getpid (), slot) ; mkdir (d, 0700) ; snprintf (in->path, sizeof (in->path), "%s/out.%s", d, sp->kind == K_SD2 ? "sd2" : "dat") ; }
 }
+/* one metadata command of a write script, chosen by the script's seed; what the handle then reports back is part of its transcript (the library completes some of these
+** records itself: the BWF coding history gets a line built from this handle's rate, width and channel count) */
+static void meta_step (INST *in)
+{	const SPEC *sp = &in->sp ; int rc ;
+	switch ((int) ((sp->seed >> 24) & 3))
+	{	case 0 :
+		{	static SF_BROADCAST_INFO bi ; memset (&bi, 0, sizeof (bi)) ; snprintf (bi.description, sizeof (bi.description), "isolation %d", (int) (sp->seed & 0xff)) ; snprintf (bi.originator, sizeof (bi.originator), "c19") ;
+			if (sp->seed & 0x8000000) bi.coding_history_size = (uint32_t) snprintf (bi.coding_history, sizeof (bi.coding_history), "A=PCM,F=%d,W=16,M=mono,T=other\r\n", 1000 + (int) (sp->seed & 0xfff)) ;
+			rc = sf_command (in->s, SFC_SET_BROADCAST_INFO, &bi, sizeof (bi)) ; memset (&bi, 0, sizeof (bi)) ;
+			if (sf_command (in->s, SFC_GET_BROADCAST_INFO, &bi, sizeof (bi)) == SF_TRUE) rec (in, "set+get-broadcast-info", rc, &bi, offsetof (SF_BROADCAST_INFO, coding_history) + (bi.coding_history_size < sizeof (bi.coding_history) ? bi.coding_history_size : sizeof (bi.coding_history))) ;
+			else rec (in, "set-broadcast-info", rc, NULL, 0) ;
+			} break ;
+		case 1 :
+		{	static SF_CART_INFO ci ; memset (&ci, 0, sizeof (ci)) ; snprintf (ci.version, sizeof (ci.version), "0101") ; snprintf (ci.title, sizeof (ci.title), "cart %d", (int) (sp->seed & 0xff)) ; ci.level_reference = (int) (sp->seed & 0x7fff) ;
+			ci.tag_text_size = (uint32_t) snprintf (ci.tag_text, sizeof (ci.tag_text), "tag text %d", (int) (sp->seed & 0xfff)) + 1 ;
+			rc = sf_command (in->s, SFC_SET_CART_INFO, &ci, sizeof (ci)) ; memset (&ci, 0, sizeof (ci)) ;
+			if (sf_command (in->s, SFC_GET_CART_INFO, &ci, sizeof (ci)) == SF_TRUE) rec (in, "set+get-cart-info", rc, &ci, offsetof (SF_CART_INFO, tag_text) + (ci.tag_text_size < sizeof (ci.tag_text) ? ci.tag_text_size : sizeof (ci.tag_text))) ;
+			else rec (in, "set-cart-info", rc, NULL, 0) ;
+			} break ;
+		case 2 :
+		{	static SF_INSTRUMENT ins ; memset (&ins, 0, sizeof (ins)) ; ins.gain = 1 ; ins.basenote = (char) (40 + (sp->seed & 31)) ; ins.velocity_hi = 127 ; ins.key_hi = 127 ; ins.loop_count = 1 + (int) ((sp->seed >> 5) & 1) ;
+			ins.loops [0].mode = SF_LOOP_FORWARD ; ins.loops [0].start = (uint32_t) (sp->seed & 63) ; ins.loops [0].end = 100 + (uint32_t) (sp->seed & 127) ; ins.loops [1].mode = SF_LOOP_BACKWARD ; ins.loops [1].start = 7 ; ins.loops [1].end = 70 ;
+			rc = sf_command (in->s, SFC_SET_INSTRUMENT, &ins, sizeof (ins)) ; memset (&ins, 0, sizeof (ins)) ;
+			if (sf_command (in->s, SFC_GET_INSTRUMENT, &ins, sizeof (ins)) == SF_TRUE) rec (in, "set+get-instrument", rc, &ins.gain, 8) ; else rec (in, "set-instrument", rc, NULL, 0) ;
+			} break ;
+		default :
+		{	static SF_CUES cu ; uint32_t i ; memset (&cu, 0, sizeof (cu)) ; cu.cue_count = 1 + (uint32_t) (sp->seed & 3) ;
+			for (i = 0 ; i < cu.cue_count ; i++) { cu.cue_points [i].indx = (int32_t) i + 1 ; cu.cue_points [i].position = (uint32_t) (10 * i + (sp->seed & 7)) ; cu.cue_points [i].fcc_chunk = 0x61746164 ; cu.cue_points [i].sample_offset = (uint32_t) (10 * i + (sp->seed & 7)) ; snprintf (cu.cue_points [i].name, sizeof (cu.cue_points [i].name), "cue %u", (unsigned) i) ; }
+			rc = sf_command (in->s, SFC_SET_CUE, &cu, sizeof (cu)) ; { uint32_t cc = 0 ; sf_command (in->s, SFC_GET_CUE_COUNT, &cc, sizeof (cc)) ; rec (in, "set-cue+count", rc, &cc, sizeof (cc)) ; }
+			} break ;
+		}
+}
 /* one call of the script; returns 0 when the script is finished */
 static int inst_step (INST *in)
 {	static double buf [8192] ; SF_INFO si ; int ch = in->sp.ch, st = in->step++ ; const SPEC *sp = &in->sp ;
@@ -53,6 +86,8 @@ static int inst_step (INST *in)
 				/* a quarter of the read scripts work on a "foreign" file: a few header bytes behind the format tag are altered (parameter tables of block codecs, rates, sizes); whatever a handle
 				** learns from such a file must stay with that handle */
 				if (sp->kind == K_READ && (sp->seed & 0xC0000) == 0x40000 && in->m.len > 80) {	/* read scripts only: a damaged file opened SFM_RDWR runs into the known header-rewrite defect of C16 */ int z ; uint64_t x = sp->seed ; for (z = 0 ; z < 3 ; z++) { long pos ; x = vh_mix (x + z) ; pos = 38 + (long) (x % 34) ; in->m.d [pos] ^= (unsigned char) (1u << ((x >> 8) % 3)) ; } }
+				/* another quarter read a file whose tail was cut off at a random byte: the last block of a block codec is then partial, and whatever fills the rest of it must be this handle's own */
+				if (sp->kind == K_READ && (sp->seed & 0xC0000) == 0x80000 && in->m.len > 400) in->m.len -= 1 + (long) ((sp->seed >> 32) % 160) ;
 				if ((sp->format & SF_FORMAT_TYPEMASK) == SF_FORMAT_RAW) { si.format = sp->format ; si.channels = ch ; si.samplerate = 8000 ; } in->m.pos = 0 ;
 				in->s = sf_open_virtual (&MVIO, sp->kind == K_READ ? SFM_READ : SFM_RDWR, &si, &in->m) ; break ;
 			}
@@ -75,6 +110,7 @@ static int inst_step (INST *in)
 	{	case K_WRITE : case K_PATHWRITE : case K_SD2 :
 			if (st == 1) { int rc = sf_set_string (in->s, SF_STR_TITLE, "isolation") ; rec (in, "set_string", rc, NULL, 0) ; }
 			else if (st == 2 && (sp->seed & 0x30000) == 0x10000) { int rc = sf_command (in->s, SFC_TEST_IEEE_FLOAT_REPLACE, NULL, SF_TRUE) ; rec (in, "ieee-replace-on", rc, NULL, 0) ; }	/* a per-handle test switch: must stay per handle */
+			else if (st == 3) meta_step (in) ;
 			else if (st % 5 == 4) { sf_command (in->s, SFC_UPDATE_HEADER_NOW, NULL, 0) ; rec (in, "update-header", 0, NULL, 0) ; }
 			else { int fr = 1 + (int) (inst_rnd (in) % (st % 3 == 0 ? 3000 / ch : 90)), t = (in->t + st) % T_N ; sf_count_t w ; gen_frames (in, buf, t, fr) ; w = vh_write_t (in->s, t, st & 1, buf, (sf_count_t) fr * ch, ch) ; in->wrote += fr ; rec (in, "write", (long) w, NULL, 0) ; }
 			break ;
@@ -138,6 +174,13 @@ static SPEC mk_spec (int f, int kind, int nsteps)
 	if (kind == K_SD2) { sp.format = SF_FORMAT_SD2 | SF_FORMAT_PCM_16 ; sp.ch = 2 ; }
 	{	static const int rates [] = { 8000, 8000, 44100, 1, 11025, 0x40000000, 48000, 0x7fffffff, 8000, 2, 96000, 0x40000001 } ; sp.rate = rates [(sp.seed >> 20) % 12] ; if (!vh_accepts (sp.format, sp.ch, sp.rate)) sp.rate = 8000 ; }
 	return sp ; }
+/* theme 1: a format with the same encoding as vh_fmts [tf]; theme 2: the same container; else any */
+static int themed_format (int theme, int tf)
+{	int f = vh_rint (vh_nfmts), n ;
+	if (theme == 0 || vh_rint (4) == 0) return f ;		/* a quarter of the members of a themed group are strangers */
+	for (n = 0 ; n < vh_nfmts ; n++, f = (f + 1) % vh_nfmts)
+		if (theme == 1 ? ((vh_fmts [f].format & SF_FORMAT_SUBMASK) == (vh_fmts [tf].format & SF_FORMAT_SUBMASK)) : (vh_fmts [f].major == vh_fmts [tf].major)) return f ;
+	return tf ; }
 static int sd2_index (void) { int i ; for (i = 0 ; i < vh_nfmts ; i++) if (vh_fmts [i].major == SF_FORMAT_SD2) return i ; return 0 ; }
 
 int main (int argc, char **argv)
@@ -148,16 +191,21 @@ int main (int argc, char **argv)
 	vh_enum_formats () ;
 	/* groups of 2..8 scripts */
 	for (g = 0 ; g < (vh_thorough ? 30000 : 1500) ; g++)
-	{	static INST in [8] ; int k, live, mode ; uint64_t order_hash = 0 ;
+	{	static INST in [8] ; int k, live, mode, theme, theme_f, theme_rate ; uint64_t order_hash = 0 ;
 		if (!vh_case ("group %d", g)) continue ;
 		k = 2 + vh_rint (7) ; mode = vh_rint (2) ;
+		/* a third of the groups share a codec, a quarter a container, and half of those one sample rate: state that should be per handle but is per codec or per
+		** container (tables, block buffers, cached header lines) only shows when two handles of the same kind are open together */
+		theme = vh_rint (12) ; theme = theme < 4 ? 1 : theme < 7 ? 2 : 0 ; theme_f = vh_rint (vh_nfmts) ; theme_rate = (theme && vh_rint (2)) ? 1 : 0 ;
+		vh_statf (1, "group-theme:%s", theme == 1 ? "same-codec" : theme == 2 ? "same-container" : "mixed") ;
 		for (i = 0 ; i < k ; i++)
-		{	int kind = vh_rint (10), f = vh_rint (vh_nfmts) ; SPEC sp ;
+		{	int kind = vh_rint (10), f = themed_format (theme, theme_f) ; SPEC sp ;
 			kind = kind < 3 ? K_WRITE : kind < 6 ? K_READ : kind < 7 ? K_RDWR : kind < 8 ? K_ERRORS : kind < 9 ? K_PATHWRITE : K_SD2 ;
 			if (vh_fmts [f].major == SF_FORMAT_SD2) f = (f + 1) % vh_nfmts ;
 			if (kind == K_RDWR && !vh_sample_granular (vh_fmts [f].format)) kind = K_READ ;
 			if (kind == K_SD2) f = sd2_index () ;
 			sp = mk_spec (f, kind, 8 + vh_rint (MAXSTEPS - 8)) ;
+			if (theme_rate && kind != K_SD2) { if (i == 0) theme_rate = sp.rate ; else if (vh_accepts (sp.format, sp.ch, theme_rate)) sp.rate = theme_rate ; }
 			inst_init (&in [i], &sp, i) ; vh_statf (1, "kind:%s", kname [kind]) ; vh_statf (1, "fmt:%s", vh_fname (sp.format)) ;
 			}
 		for (live = k ; live > 0 ; )
@@ -174,7 +222,7 @@ int main (int argc, char **argv)
 	for (g = 0 ; g < (vh_thorough ? 320 : 16) ; g++)
 	{	long merges = 0 ; unsigned mask ; SPEC a, b ;
 		if (!vh_case ("all merges of pair %d", g)) continue ;
-		{	int fa = vh_rint (vh_nfmts), fb = vh_rint (vh_nfmts), ka = vh_rint (4), kb = vh_rint (4) ; if (vh_fmts [fa].major == SF_FORMAT_SD2) fa = 0 ; if (vh_fmts [fb].major == SF_FORMAT_SD2) fb = 0 ;
+		{	int fa = vh_rint (vh_nfmts), fb = themed_format (g % 3, fa), ka = vh_rint (4), kb = vh_rint (4) ; if (vh_fmts [fa].major == SF_FORMAT_SD2) fa = 0 ; if (vh_fmts [fb].major == SF_FORMAT_SD2) fb = 0 ;
 			a = mk_spec (fa, ka == 0 ? K_WRITE : ka == 1 ? K_READ : ka == 2 ? K_ERRORS : K_SD2, 6) ; b = mk_spec (fb, kb == 0 ? K_WRITE : kb == 1 ? K_READ : kb == 2 ? K_PATHWRITE : K_ERRORS, 6) ; if (a.kind == K_SD2) a = mk_spec (sd2_index (), K_SD2, 6) ; }
 		for (mask = 0 ; mask < 4096 ; mask++)
 		{	static INST x, y ; int bits = __builtin_popcount (mask), pos ; if (bits != 6) continue ;
